@@ -63,3 +63,10 @@ CHECKS.update({
          "text": "every constructor x every argument-sort tuple (arity<=3) of a 10-sort pool; extract/rotate/extend/repeat/BV/SBV/shift payloads explored symbolically at widths 1-6(8); simplify/substitute/nnf outputs re-typed node by node",
          "note": "typing reference engine/ref/reftype.py is three-valued where pySMT is documented stricter than SMT-LIB"},
 })
+
+CHECKS.update({
+ "C04": {"level": "model_checking", "engine": "XH+TV",
+         "technique": "CrossHair with symbolic constant values / payload integers over a dict model of the hash-cons tables; structural-key comparison over construction routes and cross-environment copies",
+         "text": "identity <=> value equality for Int (unbounded), BV (widths 1-4/6, all spellings), rationals (box), strings; payload-carrying operators in both construction orders; every grammar formula through blueprint/constructor routes; normalize from two source environments",
+         "note": "SymKeyDict models Python's dict for value-keyed tables (assumes equal keys hash equal, checked for PySMTType); float spellings on a concrete set only"},
+})
